@@ -62,7 +62,7 @@ def conc_part(ck):
     for i in range(n):
         g = conc.ProgGen(rng)
         setup, threads = g.program()
-        line = conc.prog_line("p%d" % i, g.price, setup, threads, ("r%d" if i % 3 else "p%d") % rng.randint(1, 10 ** 9), "mode=O")
+        line = conc.prog_line("p%d" % i, g.price, setup, threads, ("r%d" if i % 3 else "p%d") % rng.randint(1, 10 ** 9), "mode=O,proj=map+tk")
         lines.append(line)
     recs = conc.run_progs(lines)
     bad, rej = [], []
@@ -76,6 +76,8 @@ def conc_part(ck):
             bad.append((line, j, rec["K"]))
         if not (rec["V"] or "").startswith("accepted"):
             rej.append((line, rec["V"], rec["K"]))
+        elif rec["Q"] and rec["Q"] != "aborted" and conc.kv(rec["V"])["st"] != conc.kv(rec["Q"])["st"]:
+            rej.append((line, "final statistics: implementation %s, model %s" % (conc.kv(rec["Q"])["st"], conc.kv(rec["V"])["st"]), rec["K"]))
     ck.cov["evaluations"] += sum(len(r["ev"]) for r in recs)
     ck.extra["concurrent_programs"] = len(recs)
     ck.oblige("concurrent: event trace of every scheduled run accepted by Model/Conc.v", not rej, "%d rejected" % len(rej))
